@@ -9,7 +9,9 @@ Events are delivered at named loop positions; after delivering one the harness w
 blocked in input() again or has terminated, so every schedule is reproducible.
 
 Positions: ('before_pop', i) / ('after_pop', i): around the i-th call of PcfgQueue.next (1-based);
-           ('guess', j): right after the j-th guess of this run was written (1-based).
+           ('guess', j): right after the j-th guess of this run was written (1-based);
+           ('omen_next', j): inside a Markov level, while the generator is asked for what will be the j-th guess of the
+                             run (after the quit check that followed guess j-1, before guess j is written).
 Events: '' (status), 'h', 'q', or {'raise': 'EOFError'|'RuntimeError'|'OSError'}.
 """
 import configparser
@@ -36,6 +38,8 @@ class _Sched:
         self.thread = None
         self.delivered = []
         self.thread_errors = []
+        self.fail_status = False
+        self.snap = None
 
     def input(self, *a):
         self.blocked.set()
@@ -46,17 +50,21 @@ class _Sched:
 
     def deliver(self, ev, pos):
         t = self.thread
+        snap = self.snap() if self.snap else None
         if t is None or not t.is_alive():
-            self.delivered.append([list(pos), ev, 'thread_not_alive'])
+            self.delivered.append([list(pos), ev, 'thread_not_alive', snap, False])
             return
         # wait until the thread is actually waiting for input
         while t.is_alive() and not self.blocked.wait(0.001):
             pass
         if not t.is_alive():
-            self.delivered.append([list(pos), ev, 'thread_not_alive'])
+            self.delivered.append([list(pos), ev, 'thread_not_alive', snap, False])
             return
         self.blocked.clear()
-        if isinstance(ev, dict):
+        if isinstance(ev, dict) and 'status_error' in ev:
+            self.fail_status = True          # the next status print fails (e.g. stderr closed)
+            self.q.put('')
+        elif isinstance(ev, dict):
             exc = {'EOFError': EOFError(), 'RuntimeError': RuntimeError('input(): lost sys.stdin'),
                    'OSError': OSError(9, 'Bad file descriptor'), 'ValueError': ValueError('I/O operation on closed file')}[ev['raise']]
             self.q.put(exc)
@@ -64,7 +72,7 @@ class _Sched:
             self.q.put(ev)
         while t.is_alive() and not self.blocked.wait(0.001):
             pass
-        self.delivered.append([list(pos), ev, 'ok'])
+        self.delivered.append([list(pos), ev, 'ok', snap, t.is_alive()])
 
     def at(self, pos):
         ev = self.events.get(pos)
@@ -90,6 +98,7 @@ class Result:
         self.delivered = []
         self.thread_alive_at_end = None
         self.omen_guess_pop = []
+        self.exhausted = False   # the queue reported that nothing is left (the run completed)
 
 
 def read_sav(path):
@@ -111,6 +120,7 @@ def run_main(root, argv, events=(), fail_stderr_after=None):
     import lib_guesser.cracking_session as cs
     import lib_guesser.priority_queue as pq
     import lib_guesser.pcfg_grammar as pgm
+    import lib_guesser.status_report as sr
     pg = importlib.import_module('pcfg_guesser')
     res = Result()
     sched = _Sched(events)
@@ -123,7 +133,7 @@ def run_main(root, argv, events=(), fail_stderr_after=None):
 
     saved = {'threading': cs.threading, 'time': cs.time, 'input': cs.__dict__.get('input', None),
              'next': pq.PcfgQueue.next, 'print_guess': pgm.PcfgGrammar.print_guess, 'file': pg.__file__,
-             'argv': sys.argv, 'hook': threading.excepthook}
+             'argv': sys.argv, 'hook': threading.excepthook, 'status': sr.StatusReport.print_status}
     state = {'pops': 0, 'guesses': 0}
     orig_next = pq.PcfgQueue.next
     orig_print = pgm.PcfgGrammar.print_guess
@@ -135,6 +145,8 @@ def run_main(root, argv, events=(), fail_stderr_after=None):
         r = orig_next(self)
         if r is not None:
             res.pops.append((tuple((a, b) for a, b in r['pt']), r['prob']))
+        else:
+            res.exhausted = True
         sched.at(('after_pop', i))
         return r
 
@@ -144,9 +156,48 @@ def run_main(root, argv, events=(), fail_stderr_after=None):
         res.guess_pop.append(len(res.pops))
         sched.at(('guess', state['guesses']))
 
+    import lib_guesser.omen.markov_cracker as mc
+    orig_mc_next = mc.MarkovCracker.next_guess
+    saved['mc_next'] = orig_mc_next
+
+    def mc_next(self):
+        # a point between two Markov guesses: after the quit check of the previous guess, before the next one is written
+        sched.at(('omen_next', state['guesses'] + 1))
+        return orig_mc_next(self)
+
+    orig_save = cs.CrackingSession._save_session
+    saved['save'] = orig_save
+    res.saves = []
+
+    def save_(self):
+        res.saves.append([state['pops'], state['guesses']])
+        return orig_save(self)
+
+    orig_status = sr.StatusReport.print_status
+
+    def status_(self, pcfg):
+        if sched.fail_status:
+            sched.fail_status = False
+            raise OSError(5, 'Input/output error (simulated: stderr is gone)')
+        return orig_status(self, pcfg)
+
+    sched.snap = lambda: [state['pops'], state['guesses']]
+
     def hook(args):
         sched.thread_errors.append(repr(args.exc_value))
 
+    def _sav_text():
+        name = 'default_run'
+        av = list(argv)
+        for i, x in enumerate(av):
+            if x in ('-s', '--session') and i + 1 < len(av):
+                name = av[i + 1]
+        try:
+            return open(os.path.join(root, name + '.sav'), 'rb').read()
+        except OSError:
+            return None
+
+    sav_before = _sav_text()
     out, err = io.StringIO(), io.StringIO()
     try:
         cs.threading = types.SimpleNamespace(Thread=T, main_thread=threading.main_thread)
@@ -154,6 +205,9 @@ def run_main(root, argv, events=(), fail_stderr_after=None):
         cs.input = sched.input
         pq.PcfgQueue.next = next_
         pgm.PcfgGrammar.print_guess = print_
+        sr.StatusReport.print_status = status_
+        mc.MarkovCracker.next_guess = mc_next
+        cs.CrackingSession._save_session = save_
         pg.__file__ = os.path.join(root, 'pcfg_guesser.py')
         sys.argv = ['pcfg_guesser.py'] + list(argv)
         threading.excepthook = hook
@@ -173,6 +227,9 @@ def run_main(root, argv, events=(), fail_stderr_after=None):
             cs.input = saved['input']
         pq.PcfgQueue.next = saved['next']
         pgm.PcfgGrammar.print_guess = saved['print_guess']
+        sr.StatusReport.print_status = saved['status']
+        mc.MarkovCracker.next_guess = saved['mc_next']
+        cs.CrackingSession._save_session = saved['save']
         pg.__file__ = saved['file']
         sys.argv = saved['argv']
         threading.excepthook = saved['hook']
@@ -188,6 +245,9 @@ def run_main(root, argv, events=(), fail_stderr_after=None):
         if x in ('-s', '--session') and i + 1 < len(av):
             name = av[i + 1]
     res.sav = read_sav(os.path.join(root, name + '.sav'))
+    res.sav_changed = _sav_text() != sav_before      # the save file was (re)written during this run
+    # the session state was saved after generation had started (the save at the start of a new session does not count)
+    res.saved_on_quit = res.sav_changed and any(p >= 1 for p, g in res.saves)
     res.thread_errors = sched.thread_errors
     return res
 
